@@ -19,4 +19,6 @@ grep -A1 "^VIOLATION" /tmp/try_seeded.out | grep -v "^VIOLATION\|^--" | cut -c1-
 # replay files written against a mutated tree are not kept
 find /verif/replays -name "$prop-*.json" -newer /tmp/try_seeded.out -delete 2>/dev/null
 find /verif/replays -name "$prop-*.json" -mmin -30 -delete 2>/dev/null
+# a seeded change may put its temporary files elsewhere (w11-C15: os.TempDir())
+find /tmp -maxdepth 1 -name 'result.csv.*.tmp' -delete 2>/dev/null
 exit 0
